@@ -20,7 +20,7 @@ def mc(technique, text, note, design):
 CLAIMS = {
  "C01": mc("bounded symbolic execution (z3 LRA) of the real problem layer with symbolic bounds/x0/points, and of whole runs; assertion: every logged user-function/callback/returned point inside the user's box",
    "Part (a) of the property (observable points): for every bound pattern (free/lower/upper/two-sided/fixed), symbolic bounds, x0 and internal point anywhere (n<=2, scale on/off), z3 proves that every argument of a user function and the returned x lie inside [lb, ub] and fixed variables are pinned (harness/pb.py); the same is asserted on every path of the control-flow harness for every user call, callback argument and result. " + CTL +
-   "Part (b) (trial points inside the box by construction, before projection) is not claimed yet.",
+   "Part (b), by construction: with SYMBOLIC geometry (any box with lb<ub finite or infinite, any x0/centre inside, any radius) z3 proves that every initial interpolation point (n<=2 quick, n<=3 thorough) and every trial point composed by the real glue of get_trust_region_step / get_second_order_correction_step / get_geometry_step and minimize (x_best + normal + tangential, step += soc_step) lies inside the box BEFORE projection, for ANY steps the sub-solvers may return within their contract (harness/glue.py).",
    CTLNOTE + "Exact real arithmetic for x*factor+shift; np.clip modelled with IEEE semantics.", "5/C01"),
  "C02": mc("bounded symbolic execution (z3 LRA): reported fun/maxcv vs harness-side true violation computed from the user's statement and the logged user-function values",
    "For every path of the problem-layer harness (symbolic bounds, limits over -inf/finite/equal/+inf/NaN, symbolic point, values) and of the control-flow harness, z3 proves res.x was evaluated, res.fun is the value returned there and res.maxcv equals max(0, bound/linear/nonlinear excess) in the user's variables (margin 1e-7 / 1e-9). " + CTL,
@@ -66,6 +66,9 @@ CLAIMS = {
  "C14": mc("symbolic execution of the real Models.determinants with a symbolic candidate point; z3 nlsat decides the degree-4 polynomial identity against the exact cofactor expansion of det W'/det W",
    "For poised sets reached by seeded histories (n<=2, npt<=5 quick; n<=3 thorough) and EVERY candidate point within 2 radii, sigma from determinants(x) and determinants(x,k) equals, for every index k, the ratio of the two determinants expanded exactly (Fraction minors) along the replaced row and column (relative tol 1e-6).",
    TRUSTED + "nlsat time-outs are reported as inconclusive.", "5/C14, 4/H-MOD"),
+ "C10": mc("paired symbolic execution (z3 UFLRA) of the real problem layer on a statement and its restatement sharing the same uninterpreted user functions; assertion: identical Problem interface",
+   "For each restatement pair - fixed variables left in / eliminated by hand (1 and 2 fixed), Bounds / (n,2) array, NonlinearConstraint / dict (ineq, eq), one two-sided / two one-sided (linear, nonlinear), grouped / ungrouped (linear, nonlinear), scale=True / explicitly rescaled unit-box problem (n<=2) - with symbolic bounds, x0, limits and internal point, z3 proves the interface the solver sees is identical: n, x0, bounds, a_ub/b_ub/a_eq/b_eq row by row, type and counts, the values and violation returned for ANY internal point, and the user-space image of the returned point. 'Same sequence of evaluated points and result' follows because TrustRegion/Models touch the problem only through that interface and are deterministic (code-structure argument, stated assumption).",
+   TRUSTED + "Two one-sided constraints are written in the order the internal form lists them (nonlinear: lower then upper; linear: upper then lower); two-sided grouped/ungrouped regrouping (which permutes internal rows) is in the thorough tier only and reported as representation difference. The residual clause is covered by C17/C02 checks in H-PB.", "5/C10"),
  "C11": mc("bounded symbolic execution of whole runs (z3 LRA); deep copies of the arguments before/after",
    "PARTIAL: on every control-flow path x0 and the options dict are unchanged after the call. Determinism of repeated calls, nesting and thread schedules are not covered by this check (thread interleavings cannot be ranged over by a solver encoding of this code).",
    CTLNOTE, "5/C11, 6"),
